@@ -175,12 +175,42 @@ pub fn cut_layouts(_tier: Tier) -> Vec<(String, Vec<u8>)> {
     let m = LMovie::new(1000, vec![t1]);
     let mut nodes = nodes(&m);
     nodes.push(free(6));
-    vec![("K1 (moov first, metadata, trailing free)".into(), k1()), ("K4 (fragmented, emsg)".into(), k4()), ("moov first + trailing free".into(), serialize(&nodes).0), ("K3 (mdat first, QuickTime meta)".into(), k3())]
+    // 64-bit chunk offsets with the movie header LAST (so that a cut inside moov is actually parsed): every table kind present
+    let mut a = LTrack::simple(1, Codec::Hevc, 90000, samples(5), vec![2, 1, 2]);
+    a.co64 = true;
+    a.ctts = Some(1);
+    a.stss = true;
+    a.edts = Some(1);
+    let mut b = LTrack::simple(2, Codec::Aac, 48000, samples(4), vec![1, 3]);
+    b.co64 = true;
+    b.const_size = false;
+    let mut m2 = LMovie::new(1000, vec![a, b]);
+    m2.mdat_first = true;
+    m2.mdat_lead = 2500;
+    m2.moov_extra = vec![itunes_meta(true)];
+    vec![("co64+ctts+stss+elst1+metadata, moov last".into(), encode(&m2).0), ("K1 (moov first, metadata, trailing free)".into(), k1()), ("K4 (fragmented, emsg)".into(), k4()), ("moov first + trailing free".into(), serialize(&nodes).0), ("K3 (mdat first, QuickTime meta)".into(), k3())]
 }
 
 /// Extra files for the fault sweep of C10: (name, bytes).
 pub fn fault_files(_tier: Tier) -> Vec<(String, Vec<u8>)> {
     vec![("K1".into(), k1()), ("K2".into(), k2()), ("K3".into(), k3()), ("K4".into(), k4())]
+}
+
+/// K1 with its *stream* cut at every position inside the media data while the declared length stays the
+/// original one: reads of samples behind the cut fail (short read), the header still opens.
+pub fn c15_truncated(tier: Tier) -> Vec<(String, Vec<u8>, u64)> {
+    let mut t1 = LTrack::simple(1, Codec::Avc, 1000, samples(4), vec![2, 2]);
+    t1.ctts = Some(0);
+    t1.stss = true;
+    let t2 = LTrack::simple(2, Codec::Aac, 48000, samples(3), vec![1, 2]);
+    let m = LMovie::new(1000, vec![t1, t2]);
+    let (bytes, payload) = encode(&m);
+    let full = bytes.len() as u64;
+    let step = if tier == Tier::Thorough { 1 } else { 2 };
+    (payload as usize + 1..bytes.len())
+        .step_by(step)
+        .map(|c| (format!("two tracks, moov first, stream cut at {} of {}", c, full), bytes[..c].to_vec(), full))
+        .collect()
 }
 
 /// Extra files for the reader state-graph search of C15.
